@@ -232,5 +232,5 @@ def run_property(pid, tier, seed):
 def property_assumptions(pid):
     p = os.path.join(ROOT, "contracts", "assumptions.json")
     if os.path.exists(p):
-        return json.load(open(p)).get(pid, [])
+        return [a if a.startswith("A-") else "note: " + a for a in json.load(open(p)).get(pid, [])]
     return []
